@@ -207,10 +207,34 @@ func opRefSend(w *World, s *Step) (string, string) {
 		}
 		bodies = append(bodies, b)
 	}
+	// RFC 7296 §2.5/§3.2: a conformant peer may include payloads this implementation does not know, with the
+	// critical flag clear; they are skipped. The reference peer inserts one at position s.Ref-1 (0 = none).
+	if s.Ref > 0 && s.Ref-1 <= len(types) {
+		at := s.Ref - 1
+		ut := uint8(49 + s.SpiR%200)
+		body := NewRng(s.SpiR ^ 0x130).Bytes(int(s.SpiR>>8) % 24)
+		types = append(types[:at:at], append([]uint8{ut}, types[at:]...)...)
+		bodies = append(bodies[:at:at], append([][]byte{body}, bodies[at:]...)...)
+		w.stats.inc("probe_ref_message_with_unknown_noncritical_payload")
+		if at == 0 {
+			w.stats.inc("probe_unknown_payload_first_inside_sk")
+		}
+	}
 	inner, first, err := ref.EncodeChain(types, bodies)
 	if err != nil {
 		w.stats.inc("ref_encode_failed")
 		return "refencerr", "refencerr"
+	}
+	if s.Ref > 0 {
+		// attribution: skipping unknown payloads is C13's business; the yardstick is the library's PLAIN chain
+		// decoder on the same inner octets. Only if that accepts them is a refusal of the protected form C06's.
+		var cont message.IKEPayloadContainer
+		r := &callResult{}
+		guard(r, func() { r.Err = cont.Decode(first, clone(inner)) })
+		if r.class() != "ok" || payloadsDiff(m.Payloads, extractPayloads(cont)) != "" {
+			w.stats.inc("c06_unknown_payload_yardstick_declined")
+			return "yardstick", "yardstick"
+		}
 	}
 	p0 := (16 - (len(inner)+1)%16) % 16
 	p := p0 + 16*s.N
@@ -314,6 +338,13 @@ func genC06(r *Rng, idx int, tier string) *Scenario {
 			}
 			if r.Chance(1, 6) {
 				st.IV = bytes.Repeat([]byte{Pick[uint8](r, 0, 0xff)}, 16)
+			}
+			if r.Chance(1, 5) {
+				st.Ref = 1 + r.Intn(len(st.Msg.Payloads)+1)
+				if r.Bool() {
+					st.Ref = 1
+				}
+				st.SpiR = r.U64()
 			}
 			sc.Steps = append(sc.Steps, st)
 			sc.Steps = append(sc.Steps, Step{Op: "deliver", Dgram: i, Rx: genRx(r), Obj: Pick(r, "long", "long", "twin")})
